@@ -135,6 +135,7 @@ type Sim struct {
 	mux              mqtt.Handler
 	manualConnects   int
 	diagN            int
+	reN              int
 }
 
 type opState struct {
